@@ -15,11 +15,12 @@ FileNames == {N("A.sol", TRUE, FALSE), N("B.sol", TRUE, FALSE), N("A.t.sol", TRU
 \* a directory may be called x.sol or x.t.sol: it is still a directory (descended into, never read as a file)
 DirNames  == {N("sub", FALSE, FALSE), N("lib.sol", TRUE, FALSE)}
              \cup (IF Small THEN {} ELSE {N("mocks.t.sol", TRUE, TRUE)})
-Contents  == {"c1", "c2", "c3"}
+\* c4 (thorough): a file of pragma and import directives only -- still an eligible file with a finding
+Contents  == {"c1", "c2", "c3"} \cup (IF Small THEN {} ELSE {"c4"})
 Pats      == {"p1", "p2", "p3"}
 
 \* abstract per-file results with overlapping pattern sets; c3 has no finding at all
-Res == [c1 |-> [p1 |-> <<1>>, p2 |-> <<2, 3>>], c2 |-> [p1 |-> <<7>>, p3 |-> <<4>>], c3 |-> [p2 |-> <<>>]]
+Res == [c1 |-> [p1 |-> <<1>>, p2 |-> <<2, 3>>], c2 |-> [p1 |-> <<7>>, p3 |-> <<4>>], c3 |-> [p2 |-> <<>>], c4 |-> [p3 |-> <<2>>]]
 
 File(n, c) == [kind |-> "file", name |-> n, content |-> c]
 Dir(n, t)  == [kind |-> "dir", name |-> n, tree |-> t]
@@ -97,6 +98,9 @@ Prune(t) == Tree(LET RECURSIVE Go(_)
                                     ELSE IF Eligible(e.name) THEN <<e>> ELSE <<>>) \o Go(i + 1)
                  IN Go(1))
 Inert == Done => UnionExact(Prune(tree), Res, pats, result)
+\* the fold by which Solstat.tla abbreviates one call of analyze_dir is this machine's result (same order of entries)
+SR == INSTANCE SolstatRun WITH Catalogue <- <<>>, TreeOf <- <<>>
+FoldIsMachine == Done => result = SR!WalkResult(tree, pats)
 Terminates == <>Done
 
 DumpBehaviour == (Dump /\ phase = "walk" /\ Len(stack) = 1 /\ Top.todo = tree.entries /\ Top.acc = EmptyAcc) =>
